@@ -358,7 +358,9 @@ def run(chk):
     chk.rule = ("same configurations and envelopes as C06 (json only with jsonExportAll); factors and offsets with 1..12 significant digits, exponents "
                 "-6..2 (so that str(Decimal) uses exponent forms), negative offsets, width classes 1..64 with float32/float64, value tables with negative "
                 "keys on signed signals, units from a pool incl. '%' and 'm/s^2', simple multiplexing with selector 0 forced into half the frames, extended "
-                "multiplexing for dbc/json-all, 1..3 senders, 0..3 receivers per signal. one evaluation = one frame compared feature by feature per the "
+                "multiplexing for dbc/json-all, 1..3 senders, 0..3 receivers per signal; matrix-wide value tables, some named like a signal with other content; "
+                "conversion chains A->B; histories: a built or reader-made matrix exported, edited in place (value table replaced/extended/cleared, scaling, unit, sign, receivers, "
+                "senders) and the same objects exported again, compared with the edited state and with a fresh deep copy's export. one evaluation = one frame compared feature by feature per the "
                 "property's table; non-trivial = a factor/offset with more than 6 digits, a multiplexed, float or value-table signal; distinct by "
                 "(configuration, frame normal form)")
     chk.notes.append("envelope decisions (DESIGN.md Appendix A): SYM has no place for a non-multiplexed signal in a multiplexed frame (the writer repeats it "
